@@ -5,6 +5,14 @@ HERE = os.path.dirname(os.path.dirname(os.path.abspath(__file__)))
 ALL = ["C%02d" % i for i in range(1, 21)]
 
 CHECKS = {
+ "C04": dict(category="exploration", design_ref="DESIGN.md §4 C04", engine="in-proc",
+   technique="runtime monitoring: bulk in-process monitor of templ.URL against an independent WHATWG scheme extractor; compiled href/action templates rendered with hostile values and decided with an HTML5 tokenizer; compile probes (real generator + go build) for the SafeURL typing clause",
+   text="exploration with a bounded-exhaustive sub-space: every sequence of <=4 (quick) / <=5 (thorough) tokens over a 32-token adversarial alphabet and every string of <=6 / <=7 symbols over a 14-symbol alphabet, 142 XSS vectors with mutations, random long strings (9.5M sanitiser calls quick); 94k end-to-end renders through <a href>, <form action> (also inside conditional attributes); 22 compile probes for the typing clause (lower, upper and mixed case element/attribute names).",
+   note="`exhaustive` refers only to the named sub-space. Returning the failure URL is always acceptable (over-blocking is counted, not judged). href supplied through spread attributes is recorded, not judged. Trusted: the whaturl oracle (WHATWG scheme-start/scheme states), x/net/html tokenizer. One genuine defect fixed (case-sensitive sink detection)."),
+ "C05": dict(category="exploration", design_ref="DESIGN.md §4 C05", engine="in-proc",
+   technique="runtime monitoring: bulk in-process monitor of safehtml.SanitizeCSS / templ.SanitizeCSS with a sentinel-and-canary style sheet decided by a from-scratch CSS Syntax Level 3 tokenizer/parser; css components and style attributes (map / KV / slice / func forms) rendered by compiled templates, HTML5-tokenised, the <style> text or decoded attribute decided the same way",
+   text="exploration with a bounded-exhaustive sub-space: values <=4 (quick) / <=6 (thorough) over a 22-symbol CSS-adversarial alphabet for background-image and font-family (<=4/<=5 for color and display), listed url()/string shapes with exhaustive holes, 67 property names, 600k random values; 70k rendered outputs through 14 sinks (6 css components, 8 style-attribute forms).",
+   note="Contained bad-string/bad-url tokens, ':' or newline inside a value and balanced ()/[] are not flagged on their own (they stay inside their declaration per CSS Syntax 3); '{}' blocks in values are flagged. Plain strings, templ.SafeCSS and SafeCSSProperty values are trusted input per templ's documentation. Trusted: the css3 oracle (unit-tested against the specification's examples). Three genuine defects fixed (font-family / background-image containment; double escaping of style attributes)."),
  "C10": dict(category="fault_enumeration", design_ref="DESIGN.md §4 C10", engine="corpus",
    technique="fault injection at every byte offset into components compiled by the real generator (scratch package, one driver process per DefaultBufferSize); offline oracle over the event log: prefix / nil=>whole document once / errors.Is wrap / templ.Error file+line / carry-over renders / H2 buffer-pool live-set monitor",
    text="fault_enumeration: for each of ~260 components (hand-written set covering every node/attribute kind, Flush/Join/Once/Raw/ComponentFunc wrappers, plus seeded interpreter trees) x buffer sizes {8,64,4096}: every writer-fault offset 0..|D| x {hard error with partial write, short write, zero write}, every reached failable expression (text, attribute, style, script), nested component and child block, cancellation before start and mid-render, failing Flush; after every failure the same and another component are rendered normally on the same goroutine (no carry-over). Completeness of the offset dimension is verified from the log.",
